@@ -509,7 +509,7 @@ def decompress_destripe_cbin(
 
     def my_function(i_chunk, n_chunk):
         _sr = spikeglx.Reader(sr_file, **reader_kwargs)
-        _saturation = np.load(file_saturation, mmap_mode="r+")
+        _saturation = np.load(file_saturation, mmap_mode="r+") if compute_rms else None
         n_batch = int(np.ceil(i_chunk * CHUNK_SIZE / NBATCH))
         first_s = (NBATCH - SAMPLES_TAPER * 2) * n_batch
 
@@ -547,7 +547,8 @@ def decompress_destripe_cbin(
             chunk = _sr[first_s:last_s, :ncv].T
             saturated_samples, mute_saturation = saturation(
                 data=chunk, max_voltage=_sr.range_volts[:ncv], fs=_sr.fs)
-            _saturation[first_s:last_s] = saturated_samples
+            if compute_rms:
+                _saturation[first_s:last_s] = saturated_samples
             chunk[:, :SAMPLES_TAPER] *= taper[:SAMPLES_TAPER]
             chunk[:, -SAMPLES_TAPER:] *= taper[SAMPLES_TAPER:]
             # Apply filters
